@@ -115,6 +115,12 @@ type RefClient struct {
 	in        io.WriteCloser
 	out       *bufio.Reader
 	Restarts  int
+	// RecycleEvery > 0: the reference process is replaced by a new one
+	// after that many requests, so that whatever process-wide state the
+	// library keeps is young in the reference while it is old in the worker.
+	RecycleEvery int
+	Recycled     int
+	asked        int
 }
 
 // NewRefClient prepares (and lazily starts) `self -refserver -dir dir`.
@@ -149,6 +155,12 @@ func (c *RefClient) Close() {
 func (c *RefClient) Ask(lists []disk.ListPlan, ops []workload.Op) ([]RefAnswer, string) {
 	req, _ := json.Marshal(&RefRequest{Lists: lists, Ops: ops})
 	req = append(req, '\n')
+	if c.RecycleEvery > 0 && c.cmd != nil && c.asked >= c.RecycleEvery {
+		c.Close()
+		c.Recycled++
+		c.asked = 0
+	}
+	c.asked++
 	for attempt := 0; attempt < 2; attempt++ {
 		if c.cmd == nil {
 			if err := c.start(); err != nil {
